@@ -118,8 +118,49 @@ fn run_table(t: &Table, lname: &str, level: P, rep: &mut Report, seen: &mut Hash
     subject::force(None);
 }
 
+/// Lengths of the cross-configuration ledger (fixed, independent of tier).
+pub fn ledger_lengths() -> Vec<usize> {
+    let mut v = lite_lengths();
+    for k in [3usize, 5, 7, 9, 15, 17, 31, 33, 63, 65, 100, 127, 129, 255, 257] {
+        v.push(k * 1024);
+        v.push(k * 1024 + 1);
+    }
+    v.sort();
+    v.dedup();
+    v
+}
+
+/// One ledger entry: a 128-bit fingerprint of (mode, length, digest); entries are summed
+/// (wrapping) so that the ledger does not depend on evaluation order.
+pub fn ledger_entry(mode_kind: &str, len: usize, digest: &[u8; 32]) -> u128 {
+    vcommon::fingerprint(format!("{}|{}|{}", mode_kind, len, vcommon::hex(digest)).as_bytes())
+}
+
+fn ledger(rep: &mut Report) {
+    let lens = ledger_lengths();
+    let data = vcommon::stream_a(*lens.last().unwrap());
+    let mut out = vcommon::serde_json::Map::new();
+    for (lname, level) in subject::levels() {
+        subject::force(Some(level));
+        let mut sum: u128 = 0;
+        for m in subject::primary_modes() {
+            let kind = m.json()["kind"].as_str().unwrap().to_string();
+            for &n in &lens {
+                if let Ok(d) = vcommon::catch(|| m.oneshot(&data[..n])) {
+                    sum = sum.wrapping_add(ledger_entry(&kind, n, &d));
+                }
+                rep.inc("ledger_entries");
+            }
+        }
+        subject::force(None);
+        out.insert(lname, json!(format!("{:032x}", sum)));
+    }
+    rep.extra.insert("ledger".into(), Value::Object(out));
+}
+
 pub fn run(args: &Args, rep: &mut Report) {
     let thorough = args.thorough();
+    ledger(rep);
     let lens = lengths(thorough);
     let lite = lite_lengths();
     let streams = ["A", "B"];
